@@ -67,6 +67,50 @@ REP_KINDS = [('plain',), ('dnc',), ('unspec',), ('with', ('fresh', 'E')), ('with
              ('scope', True), ('scope', False), ('lscope', True), ('tograph', True)]
 
 
+LAYER_KINDS = [('dnc',), ('unspec',), ('with', ('fresh', 'E')), ('with', ('global', 'D')),
+               ('convert', True, True, ('null',)), ('convert', False, True, ('null',)), ('convert', True, True, ('global', 'E')),
+               ('convert', True, False, ('fresh', 'D')),
+               ('internal', ('fresh', 'D'), True, True), ('internal', ('global', 'E'), True, True),
+               ('internal', ('fresh', 'U'), False, True), ('scope', True), ('lscope', False), ('artifact',)]
+INNER_KINDS = [('dnc',), ('unspec',), ('with', ('fresh', 'U')), ('convert', True, True, ('null',)),
+               ('convert', True, True, ('fresh', 'E')), ('convert', False, True, ('null',)),
+               ('internal', ('fresh', 'E'), True, True), ('internal', ('global', 'D'), True, False),
+               ('scope', True), ('lscope', True), ('tograph', True), ('artifact',), ('inner',)]
+
+
+def no_at(k):
+    return not any(isinstance(x, tuple) and x and x[0] == 'at' for x in k)
+
+
+def rand_layers(rnd, kind):
+    """wrappers stacked on the callable `kind` yields (only on artifacts, context arguments not stack-relative)"""
+    if kind[0] == 'plain' or not no_at(kind) or rnd.random() > 0.3:
+        return []
+    out = []
+    for _ in range(rnd.choice([1, 1, 1, 2, 2, 3])):
+        while True:
+            k = rand_kind(rnd) if rnd.random() < 0.5 else rnd.choice(LAYER_KINDS)
+            if k[0] not in ('plain', 'tograph', 'inner') and no_at(k):
+                break
+        out.append(k)
+    return out
+
+
+def stack_trees():
+    """exhaustive stream of decorators stacked on decorators: every representative wrapper applied to every
+    representative wrapper's result / marked artifact / inner function of converted code, called from a plain, a
+    do_not_convert'ed and a user-requested converted caller, the wrapped function returning or raising"""
+    out = []
+    for root in (('plain',), ('dnc',), ('convert', True, True, ('null',))):
+        for lay, ki in itertools.product(LAYER_KINDS, INNER_KINDS):
+            for raises in (False, True):
+                inner = [2, ki, False, False, 0 if raises else None, 'E', [], [lay]]
+                out.append([1, root, False, True, None, 'E', [inner], []])
+    for l1, l2 in itertools.product(LAYER_KINDS, LAYER_KINDS):       # two wrappers on an artifact
+        out.append([1, ('artifact',), False, False, None, 'E', [], [l1, l2]])
+    return out
+
+
 def rand_tree(rnd, max_nodes=12, max_depth=4):
     budget = [rnd.randint(1, max_nodes)]
 
@@ -81,7 +125,10 @@ def rand_tree(rnd, max_nodes=12, max_depth=4):
                 break
             ch.append(mk(depth + 1))
         raise_at = rnd.randint(0, len(ch)) if rnd.random() < 0.4 else None
-        return [0, rand_kind(rnd), rnd.random() < 0.15, rnd.random() < 0.5, raise_at, rnd.choice('EEB'), ch]
+        k = rand_kind(rnd)
+        if rnd.random() < 0.08:
+            k = rnd.choice([('artifact',), ('inner',)])
+        return [0, k, rnd.random() < 0.15, rnd.random() < 0.5, raise_at, rnd.choice('EEB'), ch, rand_layers(rnd, k)]
     t = mk(1)
     relabel(t)
     return t
@@ -106,17 +153,20 @@ def pair_trees():
     for ko, ki in itertools.product(REP_KINDS, REP_KINDS):
         for inner_raises, catches, outer_raises in ((False, False, False), (True, False, False), (True, True, False), (True, True, True)):
             inner = [2, ki, False, False, 0 if inner_raises else None, 'E', []]
-            out.append([1, ko, False, catches, 1 if outer_raises else None, 'B', [inner]])
+            out.append([1, ko, False, catches, 1 if outer_raises else None, 'B', [inner], []])
     return out
 
 
 def size(t):
-    return 1 + sum(size(c) for c in t[6])
+    return 1 + len(outer_of(t)) + sum(size(c) for c in t[6])
+
+
+def outer_of(t):
+    return [norm_kind(k) for k in (t[7] if len(t) > 7 else [])]
 
 
 def to_node(rt, t):
-    return rt.N(t[0], tuple(tuple(x) if isinstance(x, list) else x for x in t[1]), t[2], t[3], t[4], t[5],
-                [to_node(rt, c) for c in t[6]])
+    return rt.N(t[0], norm_kind(t[1]), t[2], t[3], t[4], t[5], [to_node(rt, c) for c in t[6]], outer_of(t))
 
 
 def norm_kind(k):
@@ -153,13 +203,18 @@ def coq_kind(k):
         return '(KLambdaScope %s)' % b(k[1])
     if k[0] == 'tograph':
         return '(KToGraph %s)' % b(k[1])
+    if k[0] in ('artifact', 'inner'):
+        return 'KArtifact'
     raise ValueError(k)
 
 
 def coq_tree(t):
-    return '(Node %d %s %s %s %s [%s])' % (t[0], coq_kind(t[1]), vlib.coq_bool(t[2]), vlib.coq_bool(t[3]),
-                                            'None' if t[4] is None else '(Some %d)' % t[4],
-                                            '; '.join(coq_tree(c) for c in t[6]))
+    out = '(Node %d %s %s %s %s [%s])' % (t[0], coq_kind(t[1]), vlib.coq_bool(t[2]), vlib.coq_bool(t[3]),
+                                           'None' if t[4] is None else '(Some %d)' % t[4],
+                                           '; '.join(coq_tree(c) for c in t[6]))
+    for k in reversed(outer_of(t)):
+        out = '(Wrap %s %s)' % (coq_kind(k), out)
+    return out
 
 
 # ------------------------------------------------------------------ running the implementation
@@ -243,6 +298,57 @@ def status_of_cexpr(c, call_status):
     return None
 
 
+def expected_status(n, call_status):
+    """The property text, for one call through a stack of wrappers (outermost first, the last one applied to the
+    plain function): which status must the function observe, or must it see its caller's context object?
+    -> (status letter or None when not determined, must-be-caller's-object, explanation)"""
+    layers = outer_of(n) + [norm_kind(n[1])]
+    dyn = n[2]
+    cur, why, pushed = call_status, '', False
+    for i, k in enumerate(layers):
+        innermost = (i == len(layers) - 1)
+        art_inner = any(x[0] != 'plain' for x in layers[i + 1:])
+        if k[0] in ('plain', 'artifact', 'inner'):
+            continue
+        if k[0] == 'dnc':
+            cur, why, pushed = 'D', 'inside a do_not_convert region', True
+        elif k[0] == 'unspec':
+            cur, why, pushed = 'U', 'inside call_with_unspecified_conversion_status', True
+        elif k[0] == 'with':
+            cur, why, pushed = status_of_cexpr(k[1], cur), 'inside `with ctx:`', True
+        elif k[0] in ('scope', 'lscope'):
+            if k[1]:
+                cur, why, pushed = 'E', 'inside a FunctionScope created with user_requested options', True
+        elif k[0] == 'tograph':
+            cur, why, pushed = 'E', 'inside a function converted by to_graph (user requested)', True
+        elif k[0] == 'convert':
+            if k[3][0] != 'null':
+                cur, why, pushed = status_of_cexpr(k[3], cur), 'inside convert(conversion_ctx=ctx)', True
+            if innermost and k[1] and not dyn:
+                if cur is None:
+                    pass
+                elif cur != 'D':
+                    cur, why, pushed = 'E', 'inside a user-requested converted function (convert(user_requested=True), effective status %s)' % cur, True
+        elif k[0] == 'internal':
+            if art_inner:
+                continue            # internal_convert hands artifacts back unwrapped
+            eff = status_of_cexpr(k[1], cur)
+            pushed = True
+            if eff is None:
+                cur = None
+            elif eff == 'D':
+                cur, why = 'D', 'inside internal_convert with a DISABLED context'
+            elif eff == 'U' and not k[2]:
+                cur, why = 'U', 'inside internal_convert(convert_by_default=False) with an UNSPECIFIED context'
+            else:
+                cur, why = eff, 'inside internal_convert(ctx)'
+                if innermost and k[3] and not dyn:
+                    cur, why = 'E', 'inside a user-requested converted function (internal_convert, context %s)' % eff
+    if not pushed:
+        return None, '', True
+    return cur, why, False
+
+
 def judge(t, rec, out):
     """-> list of failure texts for one executed tree (property text judged on the recorded observations)"""
     fails = []
@@ -295,45 +401,11 @@ def judge(t, rec, out):
                 call_ev = ev[j]
                 break
         call_status = call_ev[3] if call_ev else None
-        want = None
-        why = ''
-        same_as_call = False
-        if k[0] == 'dnc':
-            want, why = 'D', 'inside a do_not_convert region'
-        elif k[0] == 'unspec':
-            want, why = 'U', 'inside call_with_unspecified_conversion_status'
-        elif k[0] == 'with':
-            want, why = status_of_cexpr(k[1], call_status), 'inside `with ctx:`'
-        elif k[0] == 'plain':
-            same_as_call = True
-        elif k[0] in ('scope', 'lscope'):
-            if k[1]:
-                want, why = 'E', 'inside a FunctionScope created with user_requested options'
-            else:
-                same_as_call = True
-        elif k[0] == 'tograph':
-            want, why = 'E', 'inside a function converted by to_graph (user requested)'
-        elif k[0] == 'convert':
-            eff = call_status if k[3][0] == 'null' else status_of_cexpr(k[3], call_status)
-            if k[1] and not n[2] and eff is not None and eff != 'D':
-                want, why = 'E', 'inside a user-requested converted function (convert(user_requested=True), effective status %s)' % eff
-            elif k[3][0] == 'null' and (not k[1] or n[2] or eff == 'D'):
-                same_as_call = True
-            elif eff is not None and (not k[1] or n[2] or eff == 'D'):
-                want, why = eff, 'inside convert(conversion_ctx=ctx) without a user-requested conversion'
-        elif k[0] == 'internal':
-            eff = status_of_cexpr(k[1], call_status)
-            if eff == 'D':
-                want, why = 'D', 'inside internal_convert with a DISABLED context'
-            elif eff == 'U' and not k[2]:
-                want, why = 'U', 'inside internal_convert(convert_by_default=False) with an UNSPECIFIED context'
-            elif eff is not None and k[3] and not n[2]:
-                want, why = 'E', 'inside a user-requested converted function (internal_convert, context %s)' % eff
-            elif eff is not None:
-                want, why = eff, 'inside internal_convert without a user-requested conversion'
+        want, why, same_as_call = expected_status(n, call_status)
         for _, e in es:
             if want is not None and e[3] != want:
-                fails.append('node %d (%s): status %s %s, expected %s' % (lbl, k[0], e[3], why, want))
+                fails.append('node %d (%s): status %s %s, expected %s' % (
+                    lbl, ' '.join(x[0] + '(' for x in outer_of(n)) + k[0] + ')' * len(outer_of(n)), e[3], why, want))
                 break
             if same_as_call and call_ev is not None and e[2] is not call_ev[2]:
                 fails.append('node %d (%s): a call that enters no context sees a different context object than its caller' % (lbl, k[0]))
@@ -350,7 +422,8 @@ def judge(t, rec, out):
 
 
 def describe(t, indent=0):
-    s = '%s%d: %s%s%s%s\n' % ('  ' * indent, t[0], ' '.join(str(x) for x in norm_kind(t[1])),
+    lay = ''.join('%s( ' % ' '.join(str(x) for x in k) for k in outer_of(t))
+    s = '%s%d: %s%s%s%s%s\n' % ('  ' * indent, t[0], lay, ' '.join(str(x) for x in norm_kind(t[1])) + ' )' * len(outer_of(t)),
                               ' dyn' if t[2] else '', ' catches' if t[3] else '',
                               '' if t[4] is None else ' raises(%s)@%d' % (t[5], t[4]))
     for c in t[6]:
@@ -423,7 +496,9 @@ def _check(run, thorough):
                 'module-level object), convert(user_requested, recursive, conversion_ctx), internal_convert(ctx, '
                 'convert_by_default, user_requested), FunctionScope, with_function_scope, to_graph} x dynamic/convertible '
                 'function x raise at any position (Exception or BaseException) x swallowed by the parent or not: an exhaustive '
-                'two-level stream (20 representative kinds squared x 4 exception patterns), seeded random trees (<= 14 nodes, '
+                'two-level stream (20 representative kinds squared x 4 exception patterns), an exhaustive stream of stacked decorators '
+                '(14 wrappers applied to 13 wrapper results / marked artifacts / inner functions of converted code, under 3 callers, '
+                'returning or raising; all pairs of wrappers on an artifact), seeded random trees with up to 3 stacked wrappers per call (<= 14 nodes, '
                 'depth <= 4) on fresh threads and on the main thread, and the same trees on 2..8 (thorough ..16) threads under a '
                 'seeded deterministic interleaving at every observation point plus free-running repetitions; distinct '
                 'non-trivial = distinct (tree, thread count) with at least one context pushed')
@@ -454,7 +529,7 @@ def _check(run, thorough):
     if rt is not None:
         rnd = random.Random(run.seed * 7919 + 16)
         glob = make_globals(rt)
-        singles = pair_trees()
+        singles = pair_trees() + stack_trees()
         n_rand = 12000 if thorough else 600
         singles += [rand_tree(rnd) for _ in range(n_rand)]
         with_depth = True
